@@ -231,7 +231,15 @@ pub fn run_semantic(prop: &str, trace: &Trace, env: &Env, opts: &SemOpts) -> Run
                 last_slots.remove(&ev.actor);
                 last_text.remove(&ev.actor);
             }
-            Op::Checkpoint { .. } | Op::Nested { .. } | Op::SessionFormat => {}
+            Op::Checkpoint { .. } | Op::Nested { .. } => {}
+            Op::SessionFormat => {
+                // the public formatter over the values of the session's last result, between two texts: its
+                // output is not judged here, but whatever it leaves in the session meets the next text
+                if w.sessions.contains_key(&ev.actor) {
+                    if let Err(p) = w.session_format(ev.actor, &ev.clock) { rep.violate("O-model", format!("{}:format-{}", prop, p.key()), ei, format!("format_result over the session's last values panicked: {} at {}", p.msg, p.loc)); }
+                    rep.count("session.format_result_between_texts");
+                }
+            }
             Op::SessionLang { lang } => {
                 if w.sessions.contains_key(&ev.actor) {
                     w.session_set_language(ev.actor, lang);
